@@ -189,16 +189,24 @@ def agg (n : Nat) (F V : Mask) (a : NT R) : NT R :=
   ⟨fun k => a.mask k && (V k || F k),
    sumM o sz n (fun k => a.mask k && !V k && !F k) a.f⟩
 
+/-- `_expand_like(out_adj, operand, other)`: `out_adj ⊕ (other ⊗ 0)` — the same function, declared to
+    depend on the inputs of `other` as well — unless `out_adj` and `operand` already mention them all. -/
+def expandNT (n : Nat) (a : NT R) (operand other : Mask) : NT R :=
+  if (List.range n).all (fun k => !other k || a.mask k || operand k) then a
+  else ⟨fun k => a.mask k || other k, a.f⟩
+
 def single (id : Nat) (x : NT R) : Nat → NT R := fun j => if j = id then x else zeroNT o
 def addF (g h : Nat → NT R) : Nat → NT R := fun j => addNT o (g j) (h j)
 
 /-- `adjoint_subs`: `Scatter(sum_op, σ, a, reduced)` renamed back to the leaf's own axis names, with
-    `reduced = (a.inputs ∪ inputs of the index values) − (unsubstituted axes of the leaf)`.
+    `reduced = (inputs of the index values) − (unsubstituted axes of the leaf)`; every other input of `a`
+    is a batch input of the Scatter, left to the tape's aggregation.
     The model is the scatter-*add*; funsor implements the injective case (at most one summand). -/
 def scatter (n : Nat) (names : Mask) (σ : Subst) (a : NT R) : NT R :=
   let keep : Mask := fun k => names k && !σ.keys k
-  ⟨fun k => ((a.mask k || σ.valvars k) && keep k) || σ.keys k,
-   fun env' => sumM o sz n (fun k => (a.mask k || σ.valvars k) && !keep k)
+  let red : Mask := fun k => σ.valvars k && !keep k
+  ⟨fun k => ((a.mask k || σ.valvars k) && !red k) || σ.keys k,
+   fun env' => sumM o sz n red
       (fun env => if σ.all (fun p => p.2.val env == env' p.1) then a.f env else o.zero) env'⟩
 
 /-- `adjoint_cat`: every part receives the slice of the incoming adjoint that it covers (or the whole
@@ -216,8 +224,10 @@ def backward (n : Nat) (F : Mask) : Expr → NT R → (Nat → NT R)
       if σ.isEmpty then single o id a
       else single o id (scatter o sz n (nameMask L id) σ a)
   | .add l r, a =>
-      -- adjoint_binary, op is sum_op: both operands receive out_adj
-      addF o (backward n F l (agg o sz n F (fvMask L l) a)) (backward n F r (agg o sz n F (fvMask L r) a))
+      -- adjoint_binary, op is sum_op: both operands receive out_adj, expanded over the inputs that only
+      -- the other operand has (`_expand_like`)
+      addF o (backward n F l (agg o sz n F (fvMask L l) (expandNT n a (fvMask L l) (fvMask L r))))
+             (backward n F r (agg o sz n F (fvMask L r) (expandNT n a (fvMask L r) (fvMask L l))))
   | .mul l r, a =>
       -- adjoint_binary, op is prod_op: lhs_adj = out_adj ⊗ rhs, rhs_adj = out_adj ⊗ lhs
       addF o (backward n F l (agg o sz n F (fvMask L l) (mulNT o a (valNT o sz L r))))
